@@ -7,7 +7,7 @@ from __future__ import annotations
 import impl
 
 RULE = ("random programs over {helper call, raise, with <solver>: body, try: body except} with depth <= 6 (thorough 8), "
-        "3 solvers used re-entrantly, 11 helper kinds; distinct = distinct program tree; non-trivial = contains a "
+        "3 solvers used re-entrantly, 14 helper kinds (put with and without an immediate connection); distinct = distinct program tree; non-trivial = contains a "
         "nested with-block and at least one helper")
 TRUSTED = ["translator harness/translate/tables.py (syntactic read of __enter__/__exit__ and of `sol_list[...]` uses)",
            "CPython's `with` protocol (__exit__ is called on normal and exceptional exit; exceptions propagate unless suppressed)"]
@@ -20,7 +20,8 @@ class Boom(Exception):
 
 
 HELPERS = ["Model.put", "Solver.put", "putpin", "Pin.put", "raise_pins", "set_default_params",
-           "update_default_params", "add_param", "solve", "add_structure_to_monitors", "Structure.raise_pins", "connect"]
+           "update_default_params", "add_param", "solve", "add_structure_to_monitors", "Structure.raise_pins", "connect",
+           "Model.put+connect", "Solver.put+connect"]
 
 
 def gen_prog(rng, depth, nsolvers=3, p_raise=0.12):
@@ -113,6 +114,21 @@ class World:
             inner.add_structure(ist)
             inner.map_pins({L.Pin(f"in{c}a"): (ist, list(im.pin_dic)[0]), L.Pin(f"in{c}b"): (ist, list(im.pin_dic)[1])})
             inner.put()
+        elif name == "Model.put+connect":
+            # place and wire in one call: the target structure is present in every solver, so the call is valid wherever it lands
+            m, st = everywhere()
+            before = self.fingerprints()
+            nm = two_port()
+            nm.put(list(nm.pin_dic)[0].name, (st, list(m.pin_dic)[0]))
+        elif name == "Solver.put+connect":
+            m, st = everywhere()
+            inner = L.Solver(name=f"inner{c}")
+            im = two_port()
+            ist = L.Structure(model=im)
+            inner.add_structure(ist)
+            inner.map_pins({L.Pin(f"in{c}a"): (ist, list(im.pin_dic)[0]), L.Pin(f"in{c}b"): (ist, list(im.pin_dic)[1])})
+            before = self.fingerprints()
+            inner.put(f"in{c}a", (st, list(m.pin_dic)[0]))
         elif name == "putpin":
             m, st = everywhere()
             before = self.fingerprints()
